@@ -103,35 +103,38 @@ def gen_history(rng, maxops):
         k = rng.below(16)
         a = ref.cnt(ref.applied)
         op = None
-        if k <= 4:
+        if k <= 3:
             nxt = ref.next_index()
             cnt = rng.range(1, 3)
             es = []
             for j in range(nxt, nxt + cnt):
-                if diverged is None and j < n and not rng.chance(1, 6):
+                if diverged is None and j < n and not rng.chance(1, 10):
                     es.append(G[j])
                 else:
                     if diverged is None:
                         diverged = j
                     es.append(((20 + rng.below(3), 2, j), R.gen_payload(rng)))
             op = ("append", es)
-        elif k == 5:
+        elif k <= 5:
             if diverged is not None:
                 op = ("delete", ref.log[diverged][0] if diverged in ref.log else (1, 1, diverged))
             elif ref.next_index() > a and rng.chance(1, 2):
                 j = rng.range(a, ref.next_index() - 1)
                 op = ("delete", ref.log[j][0] if j in ref.log else (1, 1, j))
-        elif k <= 8:
+        elif k <= 9:
             avail = 0
             while a + avail < n and ref.log.get(a + avail) == G[a + avail]:
                 avail += 1
             if avail:
                 op = ("apply", G[a:a + rng.range(1, avail)])
-        elif k <= 10:
+        elif k == 10:
             op = ("build",)
         elif k == 11:
             if a < n:
-                op = ("install", G[:rng.range(a + 1, n)])
+                lo = a + 1
+                if diverged is not None and diverged + 1 <= n and rng.chance(2, 3):
+                    lo = max(lo, diverged + 1)          # snapshot beyond stale uncommitted entries that stay in the log
+                op = ("install", G[:rng.range(lo, n)])
         elif k <= 14:
             lo, hi = ref.cnt(ref.purged), ref.cnt(ref.snap)
             if ref.has_snap and hi > lo:
@@ -209,7 +212,7 @@ def run_parallel(binpath, reqs, nproc=6):
     return res
 
 
-CORPUS = None
+REPORTED = set()
 
 
 def corpus(rng):
@@ -218,7 +221,10 @@ def corpus(rng):
     return [(G, [("append", G[:3]), ("apply", G[:3]), ("build",), ("purge", G[2][0])]),          # state applied before a purge
             (G, [("append", G[:3]), ("apply", G[:2]), ("build",), ("purge", G[1][0]), ("apply", G[2:3])]),
             (G, [("append", G[:1]), ("install", G[:3]), ("purge", G[2][0]), ("append", G[3:4]), ("apply", G[3:4])]),   # installed snapshot
-            (G, [("install", G[:2]), ("vote", (2, 1, True))])]
+            (G, [("install", G[:2]), ("vote", (2, 1, True))]),
+            # uncommitted entries of a deposed leader still in the log below an installed snapshot: must not be replayed
+            (G, [("append", [G[0], ((20, 2, 1), ("c", ("GroupDeployed", 3, 12345))), ((20, 2, 2), ("c", ("ScalingPolicySet", (777,))))]),
+                 ("apply", G[:1]), ("install", G[:3]), ("vote", (21, 1, False))])]
 
 
 def check(run):
@@ -319,6 +325,10 @@ def report(run, binpath, G, ops, k, fails):
                 if kk is not None:
                     small, sk, changed = cand, kk, True
                     break
+    key = json.dumps([small, sk], default=str)
+    if key in REPORTED:
+        return
+    REPORTED.add(key)
     ans = harness.run_jsonl(binpath, [crash_req(G, small, sk)])[0]
     msg = judge(G, small, ans) or fails
     run.violation(("crash after write %d (0 = clean restart at the end): " % sk) + "; ".join(msg)[:700],
